@@ -9,6 +9,22 @@ RULE = ("plane-A monitor around every call of the shaving algorithm in real sear
         "(model, cfg); non-trivial = >= 1 probe")
 
 
+def probe_jobs(tier, seed):
+    from framework.common import Job
+
+    q = tier == "quick"
+    return [Job("framework.props.proberun", "run_probe",
+                {"seed": seed * 467 + k, "count": 120 if q else 2500, "deadline_s": 60 if q else 600},
+                mode="jit", timeout=300 if q else 1500, tag="probe:%d" % k, stall_s=120)
+            for k in range(2 if q else 4)]
+
+
+def _post(rep, extra):
+    from framework.props import proberun
+
+    proberun.aggregate(rep, extra)
+
+
 def main(tier, seed):
     from framework import gen
 
@@ -19,10 +35,11 @@ def main(tier, seed):
             "C10", tier, seed, RULE, do=["enum", "opt"], monitors=["budget", "shaving", "fixpoint"],
             want=["C10", "C02", "C03"], jit_share=0.25, per_job=40 if tier == "quick" else 600,
             monitor_opts={"fixpoint": {"ofix": False}}, configs_per_model=2,
-            task_extra={"nontrivial": "shaving_probe"},
+            task_extra={"nontrivial": "shaving_probe"}, extra_jobs=probe_jobs, post=_post,
             needs=[("shaving.probes", 5000, "probe monitor"), ("shaving.refutations_rechecked", 100, "refutations"),
                    ("shaving.bc_references", 2000, "BC reference runs"),
-                   ("shaving.solution_sets_checked", 2000, "solution preservation")],
+                   ("shaving.solution_sets_checked", 2000, "solution preservation"),
+                   ("probe.shaving_calls_monitored", 300, "compiled in-engine probe (plane B)")],
             assumptions=["C02/C03 failures with the shaving algorithm are reported here as C10 (solver-level clause)"])
     finally:
         gen.CALGS = saved
